@@ -217,24 +217,59 @@ def check_float_forms(idx: Index, rep: Report) -> None:
             r.ok(f"decimal form {name}", f"{name} ⊆ FLOAT_LIT ({dg_pat!r}{fl_pat!r})")
         else:
             r.fail(f"decimal form {name}", Finding("C06.R3", pf.fq, f"decimal-not-float-lit:{name}", f"print_float can emit `{rx.show(w)}`, which the lexer does not lex as one FLOAT_LIT", pf.loc))
-    # the g-forms are only printed under the '.' test
-    gsites = [n for n in walk_local(pf.node) if isinstance(n, ast.If) and unparse(n.test) == "'.' in float_str"]
-    gfmts = re.findall(r"f'\{value:\.(\d+)g\}'", txt)
-    if len(gsites) == len(gfmts) and gfmts:
-        r.ok("g-forms guarded", f"{pf.loc} {len(gfmts)} 'g' forms printed only when they contain '.' (else hex bit pattern)")
-    else:
-        r.fail("g-forms guarded", Finding("C06.R3", pf.fq, "g-form-unguarded", "a '%g' form is printed without the `'.' in float_str` test: forms like `1e+20` are not FLOAT_LIT", pf.loc))
-    # the lossless check dominates printing of the .5e form
-    if "if parsed_value == value:\n    self.print_string(float_str)" in "\n".join(unparse(s) for s in walk_local(pf.node) if isinstance(s, ast.If)) and "parsed_value = type.unpack(type.pack([float(float_str)]), 1)[0]" in txt:
+    # every printed form, per path (helpers inlined, locals resolved along the path): which literal form is printed
+    # under which facts
+    from ..paths import enum_paths, expand_predicates
+
+    n_forms = {"bits": 0, "g": 0, "e5": 0, "repr": 0}
+    bad_g, bad_e, bad_nf = [], [], []
+    for pth in expand_predicates(enum_paths(pf.node), {}):
+        if not pth.feasible():
+            continue
+        nf = pth.nfacts()
+        nan = next((p_ for t_, p_ in nf if t_ == "math.isnan(value)"), None)
+        inf = next((p_ for t_, p_ in nf if t_ == "math.isinf(value)"), None)
+        fin = next((p_ for t_, p_ in nf if t_ == "math.isfinite(value)"), None)
+        finite_known = (nan is False and inf is False) or fin is True
+        nonfinite = nan is True or inf is True or fin is False
+        for k, e_ in enumerate(pth.effects):
+            if not (isinstance(e_, ast.Expr) and isinstance(e_.value, ast.Call) and unparse(e_.value.func) == "self.print_string" and e_.value.args):
+                continue
+            T = pth.res(e_.value.args[0], k)
+            mg = re.fullmatch(r"f'\{value:\.(\d+)g\}'", T)
+            if (".hex()" in T and "pack(" in T) or re.search(r"convert_f(32|64)_to_u(32|64)\(value\):X", T):
+                n_forms["bits"] += 1
+                continue
+            if mg:
+                kind = "g"
+                if (f"'.' in {T}", True) not in nf:
+                    bad_g.append(T)
+            elif "f'{value:.5e}'" in T and "'0'" in T:
+                kind = "e5"
+                ok_e = any(p_ and re.fullmatch(r"type\.unpack\(type\.pack\(\[float\((.*)\)\]\), 1\)\[0\] == value|value == type\.unpack\(type\.pack\(\[float\((.*)\)\]\), 1\)\[0\]", t_) and (T in t_) for t_, p_ in nf)
+                if not ok_e:
+                    bad_e.append(T[:60])
+            elif T in ("f'{value!r}'", "repr(value)", "str(value)", "f'{value}'"):
+                kind = "repr"
+            else:
+                raise AnalysisError(f"{pf.fq}: printed literal form `{T[:80]}` not recognised")
+            n_forms[kind] += 1
+            if not finite_known:
+                bad_nf.append(f"`{T[:50]}` can be printed for a value not known to be finite")
+        if nonfinite and not any(isinstance(e_, ast.Expr) and isinstance(e_.value, ast.Call) and unparse(e_.value.func) == "self.print_string" for e_ in pth.effects):
+            bad_nf.append("a NaN / Inf value is not printed at all")
+    if n_forms["g"] and not bad_g:
+        r.ok("g-forms guarded", f"{pf.loc} {n_forms['g']} 'g' forms printed only when they contain '.' (else hex bit pattern)")
+    elif bad_g:
+        r.fail("g-forms guarded", Finding("C06.R3", pf.fq, "g-form-unguarded", f"the '%g' form {bad_g[0]} is printed without the `'.' in <text>` test: forms like `1e+20` are not FLOAT_LIT", pf.loc))
+    if n_forms["e5"] and not bad_e:
         r.ok("lossless-check", f"{pf.loc} '.5e' form printed only after re-packing it gives the same value")
+    elif bad_e:
+        r.fail("lossless-check", Finding("C06.R3", pf.fq, "lossless-check-missing", f"the short scientific form `{bad_e[0]}` is printed without verifying that it re-parses to the same value in the element type", pf.loc))
+    if n_forms["bits"] and not bad_nf:
+        r.ok("nan-inf-hex", f"{pf.loc} NaN/Inf printed as the bit pattern of the packed value; decimal forms only for finite values")
     else:
-        r.fail("lossless-check", Finding("C06.R3", pf.fq, "lossless-check-missing", "the short scientific form is printed without verifying that it re-parses to the same value in the element type", pf.loc))
-    # NaN / Inf always as bit pattern
-    first = pf.node.body[0]
-    if isinstance(first, ast.If) and unparse(first.test) in ("math.isnan(value) or math.isinf(value)", "math.isinf(value) or math.isnan(value)", "not math.isfinite(value)") and "hex()" in unparse(first.body[0]) + unparse(first.body[-1]):
-        r.ok("nan-inf-hex", f"{pf.loc} NaN/Inf printed as the bit pattern of the packed value")
-    else:
-        r.fail("nan-inf-hex", Finding("C06.R3", pf.fq, "nan-inf-form", "NaN / Inf are no longer printed as their packed bit pattern", pf.loc))
+        r.fail("nan-inf-hex", Finding("C06.R3", pf.fq, "nan-inf-form", "NaN / Inf are not always printed as their packed bit pattern: " + (bad_nf[0] if bad_nf else "no bit-pattern form found"), pf.loc))
     # readers
     for mod, q, what in FLOAT_READERS:
         f = idx.func(mod, q)
@@ -265,56 +300,57 @@ def check_float_digits(idx: Index, rep: Report) -> None:
     fn = pf.node
     value = fn.args.args[1].arg
     tparam = fn.args.args[2].arg
+    from ..paths import enum_paths, expand_predicates
+
     n = 0
-    for js in [x for x in walk_local(fn) if isinstance(x, ast.JoinedStr)]:
-        fvs = [v for v in js.values if isinstance(v, ast.FormattedValue) and isinstance(v.value, ast.Name) and v.value.id == value]
-        for fv in fvs:
-            spec = unparse(fv.format_spec)[2:-1] if fv.format_spec is not None else ""
-            if fv.conversion == ord("r") or (spec == "" and fv.conversion in (-1, ord("s"))):
-                # repr / str of a Python float: shortest string that round-trips the double (exact for every narrower type)
+    seen_inst = set()
+    for pth in expand_predicates(enum_paths(fn), {}):
+        if not pth.feasible():
+            continue
+        nf = pth.nfacts()
+        types = [m_.group(1) for t_, p_ in nf if p_ and (m_ := re.fullmatch(rf"isinstance\({tparam}, ([\w.]+)\)", t_))]
+        types += [m_.group(1) for t_, p_ in nf if p_ and (m_ := re.fullmatch(rf"{tparam} == '([\w.]+)\(\)'", t_))]  # match type: case Float32Type():
+        for k, e_ in enumerate(pth.effects):
+            if not (isinstance(e_, ast.Expr) and isinstance(e_.value, ast.Call) and unparse(e_.value.func) == "self.print_string" and e_.value.args):
+                continue
+            T = pth.res(e_.value.args[0], k)
+            for spec_m in re.finditer(r"\{" + re.escape(value) + r"(!r)?(?::([^}]*))?\}", T):
+                if "0x{" in T and ":X" in T:
+                    continue
+                conv, spec = spec_m.group(1), spec_m.group(2) or ""
+                if conv == "!r" or spec == "":
+                    n += 1
+                    if "repr" not in seen_inst:
+                        seen_inst.add("repr")
+                        r.ok(f"{pf.fq}:repr", f"{pf.loc} repr(value): shortest round-trip form of the double")
+                    break
+                m = re.fullmatch(r"\.(\d+)([eg])", spec)
+                if m is None:
+                    raise AnalysisError(f"{pf.fq}: float format spec `{spec}` not recognised")
+                digits = int(m.group(1)) + (1 if m.group(2) == "e" else 0)
+                verified = any(p_ and re.search(rf"{tparam}\.unpack\({tparam}\.pack\(\[float\(", t_) and re.search(rf"== {value}$|^{value} ==", t_) and T in t_ for t_, p_ in nf)
                 n += 1
-                r.ok(f"{pf.fq}:repr", f"{pf.loc} repr(value): shortest round-trip form of the double")
-                continue
-            m = re.fullmatch(r"\.(\d+)([eg])", spec)
-            if m is None:
-                raise AnalysisError(f"{pf.fq}: float format spec `{spec}` not recognised")
-            digits = int(m.group(1)) + (1 if m.group(2) == "e" else 0)
-            # where does the formatted text go?  find the statement and the name it is bound to
-            pm = {id(c): p for p in ast.walk(fn) for c in ast.iter_child_nodes(p)}
-            st = js
-            while not isinstance(st, ast.stmt):
-                st = pm[id(st)]
-            facts = guard_facts(fn, st)
-            types = [unparse(t.args[1]) for t, pol in facts if pol and isinstance(t, ast.Call) and call_attr(t) == "isinstance" and len(t.args) == 2 and unparse(t.args[0]) == tparam]
-            # is every print of this text guarded by the re-pack equality?
-            verified = False
-            if isinstance(st, ast.Assign) and isinstance(st.targets[0], ast.Name):
-                nm = st.targets[0].id
-                repack = [a for a in walk_local(fn) if isinstance(a, ast.Assign) and isinstance(a.targets[0], ast.Name) and f"{tparam}.unpack({tparam}.pack(" in unparse(a.value) and nm in names_in(a.value)]
-                if repack:
-                    chk = repack[0].targets[0].id
-                    prints = [c for c in calls_in(fn) if call_attr(c) == "print_string" and c.args and nm in names_in(c.args[0])]
-                    def eq_guard(c):
-                        return any(pol and isinstance(t, ast.Compare) and isinstance(t.ops[0], ast.Eq) and {unparse(t.left), unparse(t.comparators[0])} == {chk, value} for t, pol in guard_facts(fn, c))
-                    # prints of later re-bindings of the same name are judged with their own format
-                    own = [c for c in prints if c.lineno < min([a.lineno for a in walk_local(fn) if isinstance(a, ast.Assign) and isinstance(a.targets[0], ast.Name) and a.targets[0].id == nm and a.lineno > st.lineno and nm not in names_in(a.value)] + [10**9])]
-                    verified = bool(own) and all(eq_guard(c) for c in own)
-            n += 1
-            inst = f"{pf.fq}:.{m.group(1)}{m.group(2)}"
-            if verified:
-                r.ok(inst, f"{pf.module.relpath}:{js.lineno} '{spec}' printed only after re-packing it reproduces the value")
-                continue
-            if not types:
-                r.fail(inst, Finding("C06.R3b", pf.fq, f"unverified-digits:{spec}", f"`{unparse(js)}` is printed without a re-pack check and without a test of the element type: {digits} significant digits do not identify every float", f"{pf.module.relpath}:{js.lineno}"))
-                continue
-            for t in types:
-                need = ROUNDTRIP_DIGITS.get(t.split(".")[-1])
-                if need is None:
-                    raise AnalysisError(f"{pf.fq}: float type `{t}` has no entry in the round-trip digit table")
-                if digits >= need:
-                    r.ok(inst, f"{pf.module.relpath}:{js.lineno} {t}: {digits} significant digits >= {need}")
-                else:
-                    r.fail(inst, Finding("C06.R3b", pf.fq, f"too-few-digits:{t.split('.')[-1]}", f"`{unparse(js)}` prints a {t} with {digits} significant digits without a re-pack check; {need} are needed to identify every value (e.g. 0.1 + 0.2, or the largest finite value, come back as a different bit pattern)", f"{pf.module.relpath}:{js.lineno}"))
+                inst = f"{pf.fq}:.{m.group(1)}{m.group(2)}"
+                loc = f"{pf.module.relpath}:{e_.lineno}"
+                if verified:
+                    if inst not in seen_inst:
+                        seen_inst.add(inst)
+                        r.ok(inst, f"{loc} '{spec}' printed only after re-packing it reproduces the value")
+                    break
+                if not types:
+                    r.fail(inst, Finding("C06.R3b", pf.fq, f"unverified-digits:{spec}", f"`f'{{{value}:{spec}}}'` is printed without a re-pack check and without a test of the element type: {digits} significant digits do not identify every float", loc))
+                    break
+                for t in types:
+                    need = ROUNDTRIP_DIGITS.get(t.split(".")[-1])
+                    if need is None:
+                        raise AnalysisError(f"{pf.fq}: float type `{t}` has no entry in the round-trip digit table")
+                    if digits >= need:
+                        if (inst, t) not in seen_inst:
+                            seen_inst.add((inst, t))
+                            r.ok(inst, f"{loc} {t}: {digits} significant digits >= {need}")
+                    else:
+                        r.fail(inst, Finding("C06.R3b", pf.fq, f"too-few-digits:{t.split('.')[-1]}", f"`f'{{{value}:{spec}}}'` prints a {t} with {digits} significant digits without a re-pack check; {need} are needed to identify every value (e.g. 0.1 + 0.2, or the largest finite value, come back as a different bit pattern)", loc))
+                break
     if n == 0:
         raise AnalysisError(f"{pf.fq}: no float format found")
 
